@@ -88,6 +88,11 @@ claim("C06", T + "control-dependence and value-selection analysis of the executi
       "Numeric agreement of the check-time simulation with deliver-time execution is NOT decided. Decides that CheckTx and DeliverTx run the same executor on the same bytes for the same block number over two views of one state, that no rejecting return, response-code store or verdict-relevant value depends on the execution mode (beyond the CheckTx-only gas-price floor and mempool rule the property excludes, and the failure-fee region), and that RunTx never turns an accepted Run into a rejection afterwards (found and repaired: non-positive ticker price).",
       TRUST + "Read methods return the same values through CheckState as through the State it wraps.", "DESIGN.md §4 C06")
 
+
+claim("C07", T + "panic-site inventory over call-graph reachability from the ABCI methods with io/table classification; derived partial-mutator set with pre-check-sibling facts (incl. exhaustive error-switch analysis against the callee's possible error values); path-sensitive validation of fee-swap amounts; checked-here/unchecked-there nil rule with caller gates for block-level lookups; type-assertion gating",
+      "Arithmetic, bounds, nil *big.Int, third-party and RLP-internal panics are NOT decided. Decides that every explicit panic/exit site reachable from DeliverTx/CheckTx/BeginBlock/EndBlock/Commit is governed by a storage/encoder error or is in the confirmed table; that every state mutator that can panic on its arguments is called from deliver blocks only behind its pre-check sibling on the same arguments; that the amount sold by every fee swap was produced or validated by a successful CalculateCommission/CheckSwap on every path (found and repaired: dust failure fee crashed DeliverTx); that block-level code does not dereference a may-return-nil lookup unchecked (two genuine crashes recorded as known findings: matured move to a removed candidate; reward payout after a validator key change); and that type assertions on the decoded data are gated by the matching tx type.",
+      TRUST + "A pre-check sibling rejects exactly the arguments its mutator panics on.", "DESIGN.md §4 C07")
+
 PENDING = "check not built yet in this round; see DESIGN.md §4 for the planned static rule"
 for p in ["C%02d" % i for i in range(1, 30)]:
     if p not in CLAIMS and p != "C12":
